@@ -1187,18 +1187,16 @@ func (w *world) calledUnconditionally(f, g string, depth int) bool {
 	if fd == nil || fd.Body == nil || depth > 4 {
 		return false
 	}
-	for _, s := range fd.Body.List {
-		switch s.(type) {
-		case *ast.IfStmt, *ast.ForStmt, *ast.RangeStmt, *ast.SwitchStmt:
-			continue
+	// reached: the call of g (or of a function that calls g unconditionally) stands in n
+	reached := func(n ast.Node) bool {
+		if n == nil {
+			return false
 		}
-		_, isRet := s.(*ast.ReturnStmt)
-		if w.containsCallTo(s, g) {
+		if w.containsCallTo(n, g) {
 			return true
 		}
-		// through a callee of this statement
 		via := false
-		ast.Inspect(s, func(n ast.Node) bool {
+		ast.Inspect(n, func(n ast.Node) bool {
 			if _, ok := n.(*ast.FuncLit); ok {
 				return false
 			}
@@ -1209,14 +1207,94 @@ func (w *world) calledUnconditionally(f, g string, depth int) bool {
 			}
 			return !via
 		})
-		if via {
-			return true
+		return via
+	}
+	returns := func(s ast.Stmt) bool {
+		found := false
+		ast.Inspect(s, func(n ast.Node) bool {
+			switch n.(type) {
+			case *ast.FuncLit:
+				return false
+			case *ast.ReturnStmt:
+				found = true
+			}
+			return !found
+		})
+		return found
+	}
+	for _, s := range fd.Body.List {
+		switch x := s.(type) {
+		case *ast.IfStmt:
+			// the init statement and the condition run on every path, the branches do not; a branch
+			// that returns makes what follows conditional - unless the condition is a disjunction
+			// of nil tests `X == nil` of the receiver or of fields reached from it
+			if x.Init != nil && reached(x.Init) || reached(x.Cond) {
+				return true
+			}
+			if returns(s) && !w.receiverNilGuard(fd, x) {
+				return false
+			}
+			continue
+		case *ast.SwitchStmt:
+			if x.Init != nil && reached(x.Init) || x.Tag != nil && reached(x.Tag) {
+				return true
+			}
+			if returns(s) {
+				return false
+			}
+			continue
+		case *ast.RangeStmt:
+			if reached(x.X) {
+				return true
+			}
+			if returns(s) {
+				return false
+			}
+			continue
+		case *ast.ForStmt, *ast.TypeSwitchStmt, *ast.SelectStmt:
+			if returns(s) {
+				return false
+			}
+			continue
+		case *ast.ReturnStmt:
+			return reached(s) // `return f(...)`: what f calls is still reached, what follows is not
 		}
-		if isRet {
-			return false // `return f(...)`: what f calls is still reached, what follows is not
+		if reached(s) {
+			return true
 		}
 	}
 	return false
+}
+
+// receiverNilGuard: `if X == nil [|| Y == nil] { ... }` without init and else, every X the receiver
+// of fd or a chain of field selections on it.
+func (w *world) receiverNilGuard(fd *ast.FuncDecl, x *ast.IfStmt) bool {
+	if x.Init != nil || x.Else != nil || fd.Recv == nil || len(fd.Recv.List) != 1 || len(fd.Recv.List[0].Names) != 1 {
+		return false
+	}
+	recv := w.info.Defs[fd.Recv.List[0].Names[0]]
+	var ds []ast.Expr
+	var split func(e ast.Expr)
+	split = func(e ast.Expr) {
+		e = unparen(e)
+		if b, ok := e.(*ast.BinaryExpr); ok && b.Op == token.LOR {
+			split(b.X)
+			split(b.Y)
+			return
+		}
+		ds = append(ds, e)
+	}
+	split(x.Cond)
+	for _, d := range ds {
+		t, op, ok := w.nilTest(d)
+		if !ok || op != token.EQL || !w.pureFieldPath(t) {
+			return false
+		}
+		if id := pathIdent(t); id == nil || recv == nil || w.info.Uses[id] != recv {
+			return false
+		}
+	}
+	return true
 }
 
 func (w *world) classifyResets(listed []*fieldFact) {
